@@ -29,7 +29,8 @@ EXPLANATION = (
     'uciStringToMove and the UCI command handler can only let ChessError-family exceptions escape, and the UCI loop catches '
     'ChessParseError; (5) all pawn-direction square offsets (+/-8, +/-16) in the position, text and UCI code are colour-decided and '
     'occur in mirrored white/black pairs.'
-    ' (6) PGN scanner look-ahead: every character read is appended, matched as a delimiter, skipped as white space or handed back before the next read / the return.')
+    ' (6) PGN scanner look-ahead: every character read is appended, matched as a delimiter, skipped as white space or handed back before the next read / the return.'
+    ' Added later; the UCI promotion suffix of both printers is obtained by interpreting them per promotion code (fall-through and table look-up forms included).')
 UNDECIDED = ('uniqueness of short move forms, round-trip equality of values, robustness against every byte string (needs execution); '
              'PGN tree round trip beyond the scanner look-ahead discipline of clause 6.')
 ASSUMPTIONS = ['char is an 8-bit type; the piece enumerators are those of Piece::Type']
@@ -198,9 +199,21 @@ def c1_tables(fb, rep):
             bad = None
         if bad is not None:
             rep.ob(clause, 'K10 inverse tables', 'charToPiece(colour(p), pieceToChar(p)) == p for all 12 pieces', not bad, p2c.where, str(bad), p2c.sname)
+    uci_promotion_letters(fb, rep, clause, ('TextIO::moveToUCIString', 'SearchListener::moveToString'))
+
+
+def uci_promotion_letters(fb, rep, clause, writer_names):
+    """K10: the promotion suffix every UCI move printer writes for each promotion piece is the one letter that
+    uciStringToMove reads back as that piece; nothing is appended for a move that is not a promotion (shared with C03:
+    the bestmove / ponder / pv text is what the GUI plays)."""
+    pc = {n: fb.const('Piece::' + n) for n in PIECES}
+    if None in pc.values():
+        rep.broken(clause, 'piece enumerators not found')
+        return
+    inv = {v: k for k, v in pc.items()}
     # promotion letters of the UCI move format
     us = fb.find1('TextIO::uciStringToMove')
-    writers = [fb.find1('TextIO::moveToUCIString'), fb.find1('SearchListener::moveToString')]
+    writers = [fb.find1(w) for w in writer_names]
     if rep.need(clause, us, 'TextIO::uciStringToMove'):
         sw, arms = switch_arms(us, lambda c: True)
         read = {}
@@ -227,25 +240,24 @@ def c1_tables(fb, rep):
         for wfn in writers:
             if rep.need(clause, wfn, 'UCI move writer') is None:
                 continue
-            sw2, arms2 = switch_arms(wfn, lambda c: True)
-            wr = {}
-            for pv, blk in arms2.items():
-                e = arm_first(wfn, blk, lambda ev: ev.get('k') == 'call' and cname(ev).endswith('::operator+=') and ev.get('args'))
-                if e is not None:
-                    a = _strip(e['args'][0])
-                    if isinstance(a, dict) and a.get('k') == 'str':
-                        wr[pv] = a.get('v')
-                    elif isinstance(a, dict) and 'cv' in a:
-                        wr[pv] = chr(a['cv'])
+            # a move's promotion field is "none" or one of the eight promotion pieces (kings and pawns never occur there)
+            wr = uci_suffixes(fb, wfn, sorted({pc[x] for x in PIECES if x[1:] in ('QUEEN', 'ROOK', 'BISHOP', 'KNIGHT')} | {0}))
+            if wr is None:
+                rep.broken(clause, 'the promotion suffix of %s is not evaluable' % wfn.sname)
+                continue
             bad = []
-            for pv, letter in wr.items():
-                rd = read.get(letter)
-                n = inv.get(pv, str(pv))
-                if rd is None or pv != (rd[0] if n.startswith('W') else rd[1]) or (rd[2] and 'white' not in rd[2]):
-                    bad.append((n, letter, rd))
             need = {pc[x] for x in PIECES if x[1:] in ('QUEEN', 'ROOK', 'BISHOP', 'KNIGHT')}
+            for pv, letters in sorted(wr.items()):
+                n = inv.get(pv, str(pv))
+                if pv not in need:
+                    if letters:
+                        bad.append((n, letters, 'no suffix expected'))
+                    continue
+                rd = read.get(letters) if len(letters) == 1 else None
+                if rd is None or pv != (rd[0] if n.startswith('W') else rd[1]) or (rd[2] and 'white' not in rd[2]):
+                    bad.append((n, letters, rd))
             rep.ob(clause, 'K10 inverse tables', '%s: every promotion letter it writes is read back to the same piece by uciStringToMove' % wfn.sname, not bad and need <= set(wr),
-                   wfn.where, 'mismatches %s; letters %s' % (bad, {inv.get(k, k): v for k, v in wr.items()}), wfn.sname)
+                   wfn.where, 'mismatches %s; suffix written per promotion piece %s' % (bad, {inv.get(k, k): v for k, v in wr.items() if v}), wfn.sname)
         # the colour of a 5-character move is taken from the target rank
         ranks = {}
         for b, i, e in us.events():
@@ -256,6 +268,46 @@ def c1_tables(fb, rep):
                     ranks[e['r']['cv']] = yy[-1]
         ok = '== 7' in ranks.get(1, '') and not ranks.get(1, '').startswith('!') and '== 0' in ranks.get(0, '') and not ranks.get(0, '').startswith('!!')
         rep.ob(clause, 'K4 guard', 'uciStringToMove: a promotion to rank 8 is white\'s, to rank 1 is black\'s', ok, us.where, str(ranks), us.sname)
+
+
+def uci_suffixes(fb, wfn, codes):
+    """{promotion piece code: the characters the UCI move printer appends after the two squares}, by interpreting the
+    printer for each code (switch with fall-through, table look-up, if-chain alike); None if not evaluable."""
+    out = {}
+    for code in codes:
+        chars = []
+        squares = [0]
+
+        def st_append(ev, t, env, depth, _c=chars):
+            a = _strip((t.get('args') or [None])[0])
+            if isinstance(a, dict) and a.get('k') == 'str':
+                _c.append(a.get('v'))
+                return 0
+            try:
+                v = ev.eval(a, env, depth)
+            except Unknown:
+                squares[0] += 1       # a square name (string valued call)
+                return 0
+            if isinstance(v, int):
+                _c.append(chr(v & 0xff))
+            return 0
+        ev = Evaluator(fb, stubs={'Move::promoteTo': lambda e_, t_, env_, d_, _v=code: _v, 'Move::isEmpty': lambda e_, t_, env_, d_: 0,
+                                  'std::__cxx11::basic_string::operator+=': st_append, 'std::basic_string::operator+=': st_append})
+        ev.lenient_return = True
+        env = {}
+        # static character tables declared inside the printer
+        for _, _, e in wfn.events():
+            if e.get('k') == 'decl':
+                for v in e.get('vars', []):
+                    init = _strip(v.get('init'))
+                    if isinstance(init, dict) and init.get('k') == 'str':
+                        env[('v', v['id'])] = init.get('v')
+        try:
+            ev.run(wfn, env)
+        except Unknown:
+            return None
+        out[code] = ''.join(chars)
+    return out
 
 
 def _string_value(ev, tree, env):
